@@ -154,11 +154,11 @@ R_C08_NoCredsError(c, o)     == ~Credentialed(c) => IsError(o)
 R_C08_NoCredsNoIdpCall(c, o) == ~Credentialed(c) => o.idp = {}
 \* ... and nothing revealed
 R_C08_NoCredsNoLeak(c, o)    == ~Credentialed(c) => ~o.leak
-\* tokens only for a code sealed by this authenticator (with the code key) whose session lifetime has
-\* not run out.  A genuine code whose access token is past its refresh deadline is refused by the
-\* code; the statement's "session has not expired" does not settle that case, so it is left open.
+\* tokens only for a code sealed by this authenticator (with the code key) whose session has not expired: neither
+\* its lifetime nor its access token's refresh deadline has passed (the anchored mechanism: "reject expired
+\* refresh / lifetime"; the handler calls both "expired session"), by however little
 R_C08_RedeemOnlyGenuine(c, o) ==
-   (c.ep = "redeem" /\ (Is2xx(o) \/ o.leak)) => c.pay \in {"fresh", "refexp"}
+   (c.ep = "redeem" /\ (Is2xx(o) \/ o.leak)) => c.pay = "fresh"
 \* and then exactly that session's e-mail and tokens
 R_C08_RedeemExact(c, o) == (c.ep = "redeem" /\ Is2xx(o)) => o.exact
 
